@@ -301,7 +301,7 @@ fn main() {
     runner::main(
         Property {
             id: "C13",
-            rule: "(source type, target type) pairs: TryFrom<bnum> for each of the 12 primitives from all 32 sub-table types, four 320..8192-bit types and two types with 260 digits; BTryFrom for all 1024 ordered pairs of the sub-table types (all digit types, U->U, I->U, U->I, I->I) plus 8 pairs with 320..8192-bit types and 20 ordered pairs whose source or target has more than 256 digits (D8x256, D8x260, D16x260, D32x260); From/TryFrom from every primitive, bool and char into every one of the 86 types that is at least as wide as the source; from_digits/digits()/From<[digit;N]>/Into<[digit;N]>/from_digit on all 43 configurations. Source values: structured source patterns; target-shaped values shifted by k*2^Wt (low part fits but padding digits are not pure zero/sign fill); target MAX, MAX+1, MIN, MIN-1, 0, -1 embedded in the source. Oracle: the reference value fits the target <=> Ok, and the Ok value is equal; never panics. For the infallible From<unsigned> into a signed target of the same width only representable inputs are asserted (no Err channel exists), as the property states. NON-TRIVIAL: value within 2 of a target bound, or source wider than target, or negative source. distinct = distinct (profile, job, inputs) by 64-bit hash. SIBLINGS job (per configuration): num_traits::ToPrimitive::to_* (all twelve integer targets) and FromPrimitive::from_{u64, i64, u128, i128} return Some exactly for representable values (the entry points C19 anchors).",
+            rule: "(source type, target type) pairs: TryFrom<bnum> for each of the 12 primitives from all 32 sub-table types, four 320..8192-bit types and two types with 260 digits; BTryFrom for all 1024 ordered pairs of the sub-table types (all digit types, U->U, I->U, U->I, I->I) plus 8 pairs with 320..8192-bit types and 20 ordered pairs whose source or target has more than 256 digits (D8x256, D8x260, D16x260, D32x260); From/TryFrom from every primitive, bool and char into every one of the 102 types that is at least as wide as the source; from_digits/digits()/From<[digit;N]>/Into<[digit;N]>/from_digit on all 51 configurations. Source values: structured source patterns; target-shaped values shifted by k*2^Wt (low part fits but padding digits are not pure zero/sign fill); target MAX, MAX+1, MIN, MIN-1, 0, -1 embedded in the source. Oracle: the reference value fits the target <=> Ok, and the Ok value is equal; never panics. For the infallible From<unsigned> into a signed target of the same width only representable inputs are asserted (no Err channel exists), as the property states. NON-TRIVIAL: value within 2 of a target bound, or source wider than target, or negative source. distinct = distinct (profile, job, inputs) by 64-bit hash. SIBLINGS job (per configuration): num_traits::ToPrimitive::to_* (all twelve integer targets) and FromPrimitive::from_{u64, i64, u128, i128} return Some exactly for representable values (the entry points C19 anchors).",
             assumptions: &[
                 "digits()/from_digits()/to_bits()/from_bits() are the trusted observation channel (their trivial contract is itself checked in the digits_api jobs)",
                 "From from a primitive wider than the target is outside the property (README known issue)",
